@@ -2,7 +2,7 @@ import QuillModel.Backend.OrdBasic
 /-!
 # The ordering invariant of the backend model (C05; reused by C06)
 
-`PI ex fl T C s`:
+`PI c ex fl T C s`:
 * `fl` — the cut-off (`ts_now`) sampled by the current / most recent pass of the backend;
 * `T`  — the contexts the current pass has *not yet* read (`fun _ => True` outside a pass);
 * `C`  — the context cache (`s.cache = C`; frontend operations never touch it);
@@ -34,9 +34,8 @@ structure Ord (fl : Nat) (T : Nat → Prop) (s : BSt) : Prop where
   bufFloor : ∀ i, ∀ st ∈ (s.th i).buf, st.ts ≤ fl
   late : ∀ i ∈ s.registry, ¬ T i → (s.th i).buf = [] → ∀ st ∈ (s.th i).qStmts, fl ≤ st.ts
 
-structure PI (ex : Option Nat) (fl : Nat) (T : Nat → Prop) (C : List Nat) (s : BSt) : Prop where
-  grace : s.cfg.grace ≠ 0
-  ras : s.cfg.refreshAfterSample = true
+structure PI (c : Cfg) (ex : Option Nat) (fl : Nat) (T : Nat → Prop) (C : List Nat) (s : BSt) : Prop where
+  cfgEq : s.cfg = c
   hdr : 0 < s.cfg.hdr
   floorNow : fl ≤ s.now - s.cfg.grace
   cacheEq : s.cache = C
@@ -52,7 +51,7 @@ structure PI (ex : Option Nat) (fl : Nat) (T : Nat → Prop) (C : List Nat) (s :
   ctxInj : ∀ a b x y i, s.actor a = some x → s.actor b = some y → x.ctx = some i → y.ctx = some i → a = b
   pend : ∀ a x st, s.actor a = some x → some a ≠ ex → isPendOf x.pend st →
            st.ts ≤ s.now ∧ 0 < st.size ∧ ∀ i, x.ctx = some i → ∀ r ∈ chain (s.th i), r.ts ≤ st.ts
-  ord : PremI s → Ord fl T s
+  ord : c.grace ≠ 0 → c.refreshAfterSample = true → PremI s → Ord fl T s
 
 theorem Ord.cast {fl T} {s s' : BSt} (o : Ord fl T s) (h1 : s'.popLog = s.popLog) (h2 : ∀ i, s'.th i = s.th i)
     (h3 : s'.registry = s.registry) : Ord fl T s' where
@@ -81,12 +80,11 @@ theorem ThEq.qc {t t' : Th} (h : ThEq t t') (hq : QC t) : QC t' :=
   ⟨by rw [h.wpos, h.wh]; exact hq.wpos, by rw [h.wh, h.rpos, h.q]; exact hq.sum, by rw [h.q]; exact hq.pos⟩
 
 /-- the invariant depends only on the fields listed here -/
-theorem PI.congr {ex fl T C} {s s' : BSt} (h : PI ex fl T C s) (hcfg : s'.cfg = s.cfg) (hnow : s'.now = s.now)
+theorem PI.congr {ex fl T C} {s s' : BSt} (h : PI c ex fl T C s) (hcfg : s'.cfg = s.cfg) (hnow : s'.now = s.now)
     (hth : ∀ i, ThEq (s.th i) (s'.th i)) (hlen : s'.ths.length = s.ths.length) (hreg : s'.registry = s.registry)
     (hcache : s'.cache = s.cache) (hnf : s'.newFlag = s.newFlag) (hact : ∀ a, s'.actor a = s.actor a)
-    (hpop : s'.popLog = s.popLog) : PI ex fl T C s' where
-  grace := by rw [hcfg]; exact h.grace
-  ras := by rw [hcfg]; exact h.ras
+    (hpop : s'.popLog = s.popLog) : PI c ex fl T C s' where
+  cfgEq := by rw [hcfg]; exact h.cfgEq
   hdr := by rw [hcfg]; exact h.hdr
   floorNow := by rw [hcfg, hnow]; exact h.floorNow
   cacheEq := by rw [hcache]; exact h.cacheEq
@@ -105,11 +103,11 @@ theorem PI.congr {ex fl T C} {s s' : BSt} (h : PI ex fl T C s) (hcfg : s'.cfg = 
     obtain ⟨h1, h2, h3⟩ := h.pend a x st hx hex hp
     refine ⟨by rw [hnow]; exact h1, h2, fun i hi r hr => ?_⟩
     rw [(hth i).chain] at hr; exact h3 i hi r hr
-  ord := fun hp => by
+  ord := fun hg0 hr0 hp => by
     have hp0 : PremI s := fun i st hst => by
       have := hp i st (by rw [(hth i).acc]; exact hst)
       rwa [hcfg] at this
-    have ho := h.ord hp0
+    have ho := h.ord hg0 hr0 hp0
     exact {
       popSorted := by rw [hpop]; exact ho.popSorted
       above := fun p hp i hi => by rw [(hth i).chain]; rw [hpop] at hp; rw [hreg] at hi; exact ho.above p hp i hi
@@ -130,7 +128,7 @@ structure Core where
 
 def core (s : BSt) : Core := ⟨s.cfg, s.now, s.ths, s.registry, s.cache, s.newFlag, s.actors, s.popLog⟩
 
-theorem PI.frame {ex fl T C} {s s' : BSt} (h : PI ex fl T C s) (hc : core s' = core s) : PI ex fl T C s' := by
+theorem PI.frame {ex fl T C} {s s' : BSt} (h : PI c ex fl T C s) (hc : core s' = core s) : PI c ex fl T C s' := by
   have h1 : s'.cfg = s.cfg := congrArg Core.cfg hc
   have h2 : s'.now = s.now := congrArg Core.now hc
   have h3 : s'.ths = s.ths := congrArg Core.ths hc
@@ -149,8 +147,8 @@ theorem PI.frame {ex fl T C} {s s' : BSt} (h : PI ex fl T C s) (hc : core s' = c
 @[simp] theorem core_emit (s : BSt) (e : Ev) : core (s.emit e) = core s := rfl
 
 /-- a context update invisible to the invariant -/
-theorem PI.setTh_frame {ex fl T C} {s : BSt} (h : PI ex fl T C s) (i : Nat) (f : Th → Th)
-    (hf : ThEq (s.th i) (f (s.th i))) : PI ex fl T C (s.setTh i f) := by
+theorem PI.setTh_frame {ex fl T C} {s : BSt} (h : PI c ex fl T C s) (i : Nat) (f : Th → Th)
+    (hf : ThEq (s.th i) (f (s.th i))) : PI c ex fl T C (s.setTh i f) := by
   refine h.congr rfl rfl (fun j => ?_) (length_setTh s i f) rfl rfl rfl (fun a => rfl) rfl
   rcases th_setTh_cases s i j f with h1 | ⟨rfl, _, h1⟩
   · rw [h1]; exact ThEq.refl _
@@ -162,19 +160,19 @@ theorem chain_setTh_frame (s : BSt) (i : Nat) (f : Th → Th) (hf : ThEq (s.th i
   · rw [h1]
   · rw [h1]; exact hf.chain
 
-theorem PI.weakenT {ex fl T T' C} {s : BSt} (h : PI ex fl T C s) (hT : ∀ i, T i → T' i) : PI ex fl T' C s :=
-  { h with ord := fun hp => { h.ord hp with late := fun i hr hi => (h.ord hp).late i hr (fun ht => hi (hT i ht)) } }
+theorem PI.weakenT {ex fl T T' C} {s : BSt} (h : PI c ex fl T C s) (hT : ∀ i, T i → T' i) : PI c ex fl T' C s :=
+  { h with ord := fun hg0 hr0 hp => { h.ord hg0 hr0 hp with late := fun i hr hi => (h.ord hg0 hr0 hp).late i hr (fun ht => hi (hT i ht)) } }
 
-theorem PI.newFloor {ex fl T C} {s : BSt} (h : PI ex fl T C s) (fl' : Nat) (h1 : fl ≤ fl')
-    (h2 : fl' ≤ s.now - s.cfg.grace) : PI ex fl' (fun _ => True) C s :=
+theorem PI.newFloor {ex fl T C} {s : BSt} (h : PI c ex fl T C s) (fl' : Nat) (h1 : fl ≤ fl')
+    (h2 : fl' ≤ s.now - s.cfg.grace) : PI c ex fl' (fun _ => True) C s :=
   { h with
     floorNow := h2
-    ord := fun hp => { h.ord hp with
-      popFloor := fun p hpp => Nat.le_trans ((h.ord hp).popFloor p hpp) h1
-      bufFloor := fun i st hst => Nat.le_trans ((h.ord hp).bufFloor i st hst) h1
+    ord := fun hg0 hr0 hp => { h.ord hg0 hr0 hp with
+      popFloor := fun p hpp => Nat.le_trans ((h.ord hg0 hr0 hp).popFloor p hpp) h1
+      bufFloor := fun i st hst => Nat.le_trans ((h.ord hg0 hr0 hp).bufFloor i st hst) h1
       late := fun _ _ hi => absurd trivial hi } }
 
-theorem PI.unex {fl T C} {s : BSt} {a : Nat} (h : PI none fl T C s) : PI (some a) fl T C s :=
+theorem PI.unex {fl T C} {s : BSt} {a : Nat} (h : PI c none fl T C s) : PI c (some a) fl T C s :=
   { h with pend := fun b x st hx _ hp => h.pend b x st hx (by simp) hp }
 
 /-! ### what the queue calls do to the fields the coupling mentions -/
